@@ -200,3 +200,40 @@ pub fn wraparound(seed: u64, n: usize) -> Script {
     steps.push(Step::Reset {});
     Script { cfg, steps }
 }
+
+/// Timers racing completions: a few operations with short ack timeouts are written (often several
+/// in one batch), then the clock is moved to just before / at / after a deadline while the write
+/// completion, the acknowledgements, a service call and sometimes a disconnection arrive in a
+/// random order.  Exercises ack timeouts against late write completions and late acks.
+pub fn races(seed: u64) -> Script {
+    let mut rng = StdRng::seed_from_u64(seed);
+    let mut cfg = random_cfg(&mut rng, false);
+    cfg.src = format!("S2:races:{}", seed);
+    cfg.ka = pick(&mut rng, &[-1, 0, 0, 1, 60]);
+    cfg.ack_delay = 0;
+    let mut steps = vec![Step::Open { deadline: 30000 }, Step::Drain { cap: 4096 },
+        Step::Connack { sp: false, rm: pick(&mut rng, &[-1, -1, 2]), ka: -1, tam: -1, mqos: -1, rc: 0, ret: -1, wild: -1, subid: -1, shared: -1, mps: -1, acid: String::new() }];
+    let tmos = [50i64, 100, 100, -1];
+    for _round in 0..rng.gen_range(1..4) {
+        for _ in 0..rng.gen_range(1..5) {
+            let kind = pick(&mut rng, &["pub", "pub", "pub", "sub", "unsub"]).to_string();
+            steps.push(Step::Submit { kind, qos: pick(&mut rng, &[0, 0, 1, 2]), topic: "t1".into(), tmo: pick(&mut rng, &tmos), retain: false, size: pick(&mut rng, &[0, 10, 300]), alias: 0, entries: 1, variant: String::new() });
+        }
+        steps.push(Step::Service { cap: pick(&mut rng, &[7usize, 64, 4096, 4096]) });
+        let mut tail = vec![Step::WriteDone {}, Step::Service { cap: 4096 }, Step::Advance { ms: pick(&mut rng, &[49, 50, 51, 99, 100, 101, 150]) },
+                            Step::Ack { which: "oldest".into(), how: "normal".into() }, Step::Ack { which: "newest".into(), how: "normal".into() }, Step::Service { cap: 4096 }, Step::WriteDone {}];
+        if rng.gen_bool(0.3) { tail.push(Step::Advance { ms: pick(&mut rng, &[1, 49, 50, 100]) }); tail.push(Step::Service { cap: 4096 }); }
+        if rng.gen_bool(0.2) { tail.push(Step::Snapshot {}); }
+        tail.shuffle(&mut rng);
+        steps.extend(tail);
+        if rng.gen_bool(0.25) {
+            steps.push(Step::Close {});
+            steps.push(Step::Open { deadline: 30000 });
+            steps.push(Step::Drain { cap: 4096 });
+            steps.push(Step::Connack { sp: rng.gen_bool(0.5), rm: -1, ka: -1, tam: -1, mqos: -1, rc: 0, ret: -1, wild: -1, subid: -1, shared: -1, mps: -1, acid: String::new() });
+        }
+    }
+    steps.push(Step::Snapshot {});
+    steps.push(Step::Reset {});
+    Script { cfg, steps }
+}
